@@ -186,6 +186,34 @@ func (e *Engine) stub2(fn *ssa.Function, args []any) (any, bool) {
 	return nil, false
 }
 
+// stripOneWay removes every subterm built by a one-way constructor from an SMT term string.
+func stripOneWay(t string) string {
+	for _, head := range []string{"(mac ", "(dhs ", "(dh ", "(x25519pub "} {
+		for {
+			i := strings.Index(t, head)
+			if i < 0 {
+				break
+			}
+			depth, j := 0, i
+			for ; j < len(t); j++ {
+				if t[j] == '(' {
+					depth++
+				} else if t[j] == ')' {
+					depth--
+					if depth == 0 {
+						break
+					}
+				}
+			}
+			if j >= len(t) {
+				break
+			}
+			t = t[:i] + "<oneway>" + t[j+1:]
+		}
+	}
+	return t
+}
+
 func (e *Engine) intrinsic2(name string, args []any) (any, bool) {
 	switch name {
 	case "Garbage": // bytes that no decoder accepts: first byte 0xFF (invalid protobuf wire type, outside the base64/base58 alphabets)
@@ -237,8 +265,9 @@ func (e *Engine) intrinsic2(name string, args []any) (any, bool) {
 		for i := 0; i < secrets.len; i++ {
 			s := bytesE((*secrets.arr)[secrets.off+i])
 			for _, l := range leaves {
-				// ciphertexts are fresh symbols, so a secret term can only occur syntactically in a field that carries it in clear
-				if strings.Contains(l, s) || e.S.CheckWith("(not (= "+l+" "+s+"))") == "unsat" {
+				// ciphertexts are fresh symbols, so a secret term can only occur syntactically in a field that carries it in
+				// clear; occurrences below a one-way constructor (MAC, DH, public-key derivation) do not reveal it
+				if strings.Contains(stripOneWay(l), s) || e.S.CheckWith("(not (= "+l+" "+s+"))") == "unsat" {
 					return false, true
 				}
 			}
